@@ -1044,7 +1044,14 @@ def scope_var_limit(prog, chk):
                 chk.undecided("A7.scope-var-limit", f"{body.short}:{name}:redispatch", body.where(eb, et.get("line")), f"var_limit is tested in {body.short}, but not in a loop over the attributes of `{name}` that the rule can read")
                 continue
             for (b, t, c) in sinks:
-                ok = any(body.dominates(lp[0], b) and b not in lp[1] for lp in guards) and R.constructs_variant(body, body.reachable, "svgdx::errors::SvgdxError", "VarLimitError")
+                def _gates(hdr, blk):
+                    if body.dominates(hdr, blk):
+                        return True
+                    # the test sits in a helper spliced in here whose early `return Err(..)` joins the `Ok(..)` exit
+                    # before `?`: every *feasible* path to the sink still passes the loop
+                    from sa import vstate
+                    return vstate.of(body, prog).passes_through(hdr, blk)
+                ok = any(b not in lp[1] and _gates(lp[0], b) for lp in guards) and R.constructs_variant(body, body.reachable, "svgdx::errors::SvgdxError", "VarLimitError")
                 chk.ob(ok, "A7.scope-var-limit", f"{body.short}:{name}:redispatch", body.where(b, t.get("line")), f"`{name}` (attributes evaluated) is processed as an element again only after its attributes passed a var_limit test", f"{body.short} evaluates the attributes of `{name}` and then processes it as an element again without testing them against var_limit: if it is a container its (expanded) attributes become variables of its content - a group that reuses itself with v=\"$v$v\" doubles the value at every level (memory exhaustion long before the depth limit)")
     chk.floor("A7.scope-var-limit:redispatch", m, 1, "element evaluated and dispatched again")
     # every attribute of the loop reaches the test: the only licence to skip one is that its value is the one written
